@@ -8,6 +8,7 @@ from spec import cooc as S
 from vectorizers import TokenCooccurrenceVectorizer, TimedTokenCooccurrenceVectorizer
 
 ALPHA = ["a", "b", "c"]
+TIES_EXCLUDED = []
 
 
 def sequences(max_len, alpha=ALPHA):
@@ -48,10 +49,21 @@ def reference_matrix(X, cfg, timed=False, n_iter=None, eps=None):
     n_vocab = len(d) + (1 if mask is not None else 0)
     mask_index = len(d) if (mask is not None and cfg.get("nullify_mask")) else None
     blocks = blocks_of(cfg)
+    if any(S.radius_tie(b["wfun"], b["radius"], freq, mask_index, **b.get("wargs", {})) for b in blocks):
+        # a variable radius on a rounding boundary (e.g. exactly 3.5): which integer it becomes depends on float precision, the
+        # definition does not decide it -> the case is excluded (counted), not compared
+        TIES_EXCLUDED.append(1)
+        return np.zeros((0, 0)), [], blocks, None
     M0 = S.token_cooccurrence(seqs, n_vocab, freq, blocks, cfg.get("normalize_windows", True), mask_index, times)
     n_iter = cfg.get("n_iter", 0) if n_iter is None else n_iter
     eps = cfg.get("epsilon", 0) if eps is None else eps
+    del S.THRESHOLD_TIES[:]
     M = S.em_refine(M0, seqs, n_vocab, freq, blocks, mask_index, n_iter, eps, times)
+    if S.THRESHOLD_TIES:
+        # a normalised entry equal to epsilon (e.g. 3/10 with epsilon=0.3): whether it survives "< epsilon" is decided by float32
+        # rounding, not by the documented procedure -> excluded (counted), not compared
+        TIES_EXCLUDED.append(1)
+        return np.zeros((0, 0)), [], blocks, None
     labels = list(d) + ([mask] if mask is not None else [])
     return M, labels, blocks, M0
 
